@@ -306,6 +306,22 @@ def examine(run, sc, r, source):
     return bool(viols)
 
 
+def check_pins(run):
+    """shape pins: the functions the C10/C11 models abstract beyond what tr_c10life / tr_port regenerate"""
+    try:
+        from translate import tr_c10life
+        from vlib.common import SRC, VERIF
+        pins = json.loads((VERIF / 'pinned' / 'c10c11_shapes.json').read_text())
+        now = tr_c10life.fingerprints(SRC)
+        changed = sorted(k for k in set(pins) | set(now) if pins.get(k) != now.get(k))
+        if changed:
+            run.add_broken(f'fingerprint:{run.prop} hand-modelled functions changed', ', '.join(changed) +
+                           ' (normalised AST differs from pinned/c10c11_shapes.json; re-pin with `python -m translate.tr_c10life <src> --pin` after review)')
+        run.cov['fingerprinted_functions'] = len(now)
+    except Exception as e:
+        run.add_broken(f'fingerprint:{run.prop}', f'{type(e).__name__}: {e}')
+
+
 def run(run: Run):
     run.rule = ('systematic product {outgoing direct, outgoing responder, incoming, server} x every end cause (refused, connect timeout, '
                 'cancel at each await, init send error/timeout, EOF/partial/reset/read timeout/undecodable before and after the init '
@@ -317,7 +333,8 @@ def run(run: Run):
                     'event handlers registered on the bus do not suspend']
     run.assumptions += ['one event = one atomic segment between awaits; handlers of ConnectionStateChangedEvent / PeerInitializedEvent do not suspend',
                         'peer connection objects are only connected by the library coroutines (_make_direct_connection, _handle_connect_to_peer, accept)']
-    run.prove([])
+    run.prove(['tr_c10life'])
+    check_pins(run)
 
     scs = []
     for key, wit, _fixed in run.known_witnesses():
